@@ -121,3 +121,39 @@ func contains(l []string, s string) bool {
 	}
 	return false
 }
+
+// TestRegressUnsettableFieldsReturnErrors: a configuration struct with
+// unexported tagged fields. The decoder answers "cannot set value" in most
+// places; a tombstoned point for an unexported slice (the trim at the end of
+// the slice case) and any point for an unexported pointer-to-struct or
+// non-nil map reached reflect's Set and panicked.
+func TestRegressUnsettableFieldsReturnErrors(t *testing.T) {
+	type inner struct {
+		A int `point:"a"`
+	}
+	type priv struct {
+		ID string             `node:"id"`
+		ss []string           `point:"ss"`
+		pf *inner             `point:"pflat"`
+		mf map[string]float64 `point:"mf"`
+	}
+	for _, ps := range []data.Points{
+		{{Type: "ss", Key: "0", Tombstone: 1}},
+		{{Type: "pflat", Key: "a", Value: 1}},
+		{{Type: "pflat", Key: "a", Tombstone: 1}},
+		{{Type: "mf", Key: "k", Value: 1}},
+		{{Type: "mf", Key: "k", Tombstone: 1}},
+	} {
+		w := priv{ID: "id1", mf: map[string]float64{"x": 1}}
+		o := guard(func() error {
+			return data.Decode(data.NodeEdgeChildren{NodeEdge: data.NodeEdge{ID: "id1", Type: "priv", Points: ps}}, &w)
+		})
+		if o.panicked != nil {
+			t.Fatalf("Decode of %s into a struct with unexported fields panicked: %v", describe(ps), o.panicked)
+		}
+		o = guard(func() error { return data.MergePoints("id1", ps, &w) })
+		if o.panicked != nil {
+			t.Fatalf("MergePoints of %s into a struct with unexported fields panicked: %v", describe(ps), o.panicked)
+		}
+	}
+}
